@@ -222,4 +222,438 @@ Section Reads.
           pose proof (byid_stored _ _ _ _ _ Hk Rc Ht r' Hr' Hid') as X. rewrite G in X. injection X as X.
           apply (sorted_lt_inj rows); [apply Rc|assumption|assumption|lia].
   Qed.
+
+  (* ---- Read / ReadReverse ------------------------------------------------------------------------ *)
+
+  Lemma check_read st s c f lim mb : R st s ->
+    spec_check_read s (ORead c f lim mb) (out_of (Read F st c f lim mb) (fun rs => XMsgs (map messageFromRow rs))) = true.
+  Proof.
+    intros [Hk _]. destruct (rk_chan _ _ Hk c) as [rows Rc]. unfold Read.
+    destruct (readForward_spec _ _ _ _ (if f =? 0 then 1 else f) 0 lim mb (rk_wf _ _ Hk) Rc) as [X [E [HX _]]].
+    rewrite E. cbn [out_of spec_check_read ok]. rewrite HX. unfold spec_read.
+    erewrite filter_ext; [apply msgs_eqb_refl|].
+    intro m. cbn. rewrite andb_true_r. reflexivity.
+  Qed.
+
+  Lemma Forall_rev' {A} (P : A -> Prop) l : Forall P l -> Forall P (rev l).
+  Proof. intro H. apply Forall_forall. intros x Hx. apply in_rev in Hx. eapply Forall_forall in H; eassumption. Qed.
+
+  Lemma check_rread st s c f lim mb : R st s ->
+    let '(st', r) := ReadReverse F st c f lim mb in
+    R st' s /\ st_kv F st' = st_kv F st /\ st_log F st' = st_log F st
+    /\ spec_check_read s (ORRead c f lim mb) (out_of r (fun rs => XMsgs (map messageFromRow rs))) = true.
+  Proof.
+    intro HR. unfold ReadReverse.
+    set (p := if f =? 0 then loadLEOLocked st c else (st, f)).
+    assert (Hp : snd p = (if f =? 0 then al_leo (as_log s c) else f) /\ R (fst p) s
+                 /\ st_kv F (fst p) = st_kv F st /\ st_log F (fst p) = st_log F st).
+    { unfold p. destruct (f =? 0).
+      - destruct (loadLEO_R st s c HR) as [H1 [H2 [H3 H4]]]. split; [exact H1|split; [exact H2|split; [exact H3|exact H4]]].
+      - cbn [fst snd]. split; [reflexivity|split; [exact HR|split; reflexivity]]. }
+    destruct p as [st1 f1]. cbn [fst snd] in Hp. destruct Hp as [Hf [HR1 [Hkv Hlog]]].
+    destruct HR1 as [Hk Hc]. destruct (rk_chan _ _ Hk c) as [rows Rc].
+    rewrite (readForward_all _ _ _ _ 1 f1 (rk_wf _ _ Hk) Rc). unfold ok at 1. cbv iota beta.
+    set (all := filter (fun r => (1 <=? r_seq r) && ((f1 =? 0) || (r_seq r <=? f1))) rows).
+    assert (HF : Forall (row_ok c) (rev all)) by (apply Forall_rev'; apply Forall_filter; apply Rc).
+    destruct (read_loop_spec c (rev all) lim mb HF) as [X [E HX]].
+    rewrite E. split; [split; assumption|]. split; [exact Hkv|]. split; [exact Hlog|].
+    cbn [out_of spec_check_read ok]. rewrite HX. unfold spec_rread. rewrite <- Hf.
+    rewrite map_rev. unfold all.
+    rewrite <- (filter_map_msg (fun q => (1 <=? q) && ((f1 =? 0) || (q <=? f1)))).
+    rewrite <- (Rchan_amsgs _ _ _ _ Rc).
+    assert (Hflt : filter (fun m => (1 <=? m_seq m) && ((f1 =? 0) || (m_seq m <=? f1))) (amsgs (as_log s c))
+                   = filter (fun m => (f1 =? 0) || (m_seq m <=? f1)) (amsgs (as_log s c))).
+    { apply filter_ext_in. intros m Hm. rewrite (Rchan_amsgs _ _ _ _ Rc) in Hm.
+      apply in_map_iff in Hm. destruct Hm as [r [<- Hr]]. cbn [m_seq messageFromRow].
+      assert (Hok : row_ok c r) by (eapply Forall_forall; [apply Rc|exact Hr]).
+      destruct Hok as [_ [_ [_ H1]]]. apply N.leb_le in H1. rewrite H1. reflexivity. }
+    rewrite Hflt. apply msgs_eqb_refl.
+  Qed.
+
+  (* ---- LookupIdempotency ------------------------------------------------------------------------------ *)
+
+  Lemma lookupIdem_spec kv s c rows uid cno :
+    Rchan kv s c rows ->
+    (exists r, In r rows /\ r_uid r = uid /\ r_cno r = cno
+               /\ lookupIdempotencyByKey kv c uid cno = ok (Some (r_seq r, r_id r, r_hash r)))
+    \/ (lookupIdempotencyByKey kv c uid cno = ok None
+        /\ forall q i h, kget (KyIdem c cno uid) kv <> Some (VIdem q i h)).
+  Proof.
+    intro Rc. unfold lookupIdempotencyByKey.
+    destruct (kget (KyIdem c cno uid) kv) as [v|] eqn:G.
+    2:{ right. split; [reflexivity|]. intros q i h X. discriminate. }
+    destruct v as [| | |q i h| |]; try (right; split; [reflexivity|]; intros q0 i0 h0 X; discriminate).
+    left. destruct (rc_idem_sound _ _ _ _ Rc _ _ _ _ _ G) as [r [Hin [Hs [Hn [Hu [Hi [Hh _]]]]]]].
+    assert (Hq : q <> 0) by (rewrite <- Hs; eapply row_seq_pos; eassumption).
+    destruct (getRowBySeq_spec _ _ _ _ q Rc Hq) as [[r2 [Hin2 [Hs2 E]]]|[Hno E]].
+    2:{ exfalso. apply (Hno r Hin). exact Hs. }
+    assert (r2 = r) by (apply (sorted_lt_inj rows); [apply Rc|assumption|assumption|lia]). subst r2.
+    exists r. split; [exact Hin|]. split; [exact Hu|]. split; [exact Hn|].
+    rewrite E. cbn [bind ok]. rewrite Hi, Hh, Hu, Hn, !N.eqb_refl, !bytes_eqb_refl. cbn [andb].
+    rewrite Hs. reflexivity.
+  Qed.
+
+  Lemma pair_find_none_or_tainted kv s c rows uid cno :
+    Rchan kv s c rows -> uid <> [] -> cno <> [] ->
+    (forall q i h, kget (KyIdem c cno uid) kv <> Some (VIdem q i h)) ->
+    match find (fun m => bytes_eqb (m_uid m) uid && bytes_eqb (m_cno m) cno) (amsgs (as_log s c)) with
+    | Some _ => pair_tainted (as_log s c) uid cno
+    | None => true
+    end = true.
+  Proof.
+    intros Rc Hu Hn Hno.
+    destruct (find _ _) as [m|] eqn:Fd; [|reflexivity].
+    apply find_some in Fd. destruct Fd as [Hm Hp].
+    rewrite (Rchan_amsgs _ _ _ _ Rc) in Hm. apply in_map_iff in Hm. destruct Hm as [r [<- Hr]].
+    cbn [m_uid m_cno messageFromRow] in Hp. beq.
+    destruct (pair_tainted (as_log s c) uid cno) eqn:T; [reflexivity|].
+    exfalso. subst. eapply Hno. apply (rc_idem_complete _ _ _ _ Rc r Hr); assumption.
+  Qed.
+
+  Lemma check_idem st s c uid cno : R st s ->
+    spec_check_read s (OIdem c uid cno)
+      (out_of (LookupIdempotency F st c uid cno)
+              (fun h => XHit (option_map (fun x => let '(q, i, hh) := x in (q, i, q - 1, hh)) h))) = true.
+  Proof.
+    intros [Hk _]. destruct (rk_chan _ _ Hk c) as [rows Rc]. unfold LookupIdempotency.
+    destruct (is_nil uid || is_nil cno) eqn:En.
+    - cbn [out_of err spec_check_read]. rewrite En, N.eqb_refl. reflexivity.
+    - apply orb_false_iff in En. destruct En as [Eu Ec]. apply is_nil_false in Eu, Ec.
+      destruct (lookupIdem_spec _ _ _ _ uid cno Rc) as [[r [Hin [Hu [Hn E]]]]|[E Hno]]; rewrite E;
+        cbn [out_of ok option_map spec_check_read].
+      + rewrite N.eqb_refl. cbn [andb]. apply existsb_exists. exists (messageFromRow r).
+        split; [rewrite (Rchan_amsgs _ _ _ _ Rc); apply in_map; exact Hin|].
+        cbn [m_seq m_id m_hash m_uid m_cno messageFromRow].
+        rewrite Hu, Hn, !N.eqb_refl, !bytes_eqb_refl. reflexivity.
+      + eapply pair_find_none_or_tainted; eassumption.
+  Qed.
+
+  (* ---- GetLastSenderMessageSeq -------------------------------------------------------------------------- *)
+
+  Lemma check_lasts st s c uid t : R st s ->
+    spec_check_read s (OLastS c uid t) (out_of (GetLastSenderMessageSeq F st c uid t) XNO) = true.
+  Proof.
+    intros [Hk _]. destruct (rk_chan _ _ Hk c) as [rows Rc]. unfold GetLastSenderMessageSeq.
+    destruct (is_nil uid || (t =? 0)) eqn:En.
+    - cbn [out_of err spec_check_read]. rewrite En, N.eqb_refl. reflexivity.
+    - apply orb_false_iff in En. destruct En as [Eu Et]. apply is_nil_false in Eu.
+      set (l1 := filter (fun q => q <=? t) (sseq_seqs (st_kv F st) c uid)).
+      set (l2 := flat_map (fun a => if bytes_eqb (m_uid (a_msg a)) uid && negb (a_sync a) && (m_seq (a_msg a) <=? t)
+                                    then [m_seq (a_msg a)] else []) (al_rows (as_log s c))).
+      assert (Hmem : forall q, In q l1 <-> In q l2).
+      { intro q. unfold l1, l2. rewrite filter_In, (in_sseq_seqs _ _ _ _ (rk_wf _ _ Hk)), in_flat_map.
+        rewrite (rc_rows _ _ _ _ Rc). split.
+        - intros [[v Hv] Hle].
+          assert (Hh : has (st_kv F st) (KySseq c uid q)) by (unfold has; rewrite Hv; discriminate).
+          apply (rc_sseq _ _ _ _ Rc) in Hh. destruct Hh as [r [Hin [Hs [Hu [_ Hf]]]]].
+          exists (arow_of r). split; [apply in_map; exact Hin|].
+          cbn [arow_of a_msg a_sync m_uid m_seq messageFromRow].
+          rewrite Hu, bytes_eqb_refl, Hf, N.eqb_refl, Hs, Hle. left. reflexivity.
+        - intros [a [Ha Hq]]. apply in_map_iff in Ha. destruct Ha as [r [<- Hr]].
+          cbn [arow_of a_msg a_sync m_uid m_seq messageFromRow] in Hq.
+          destruct (bytes_eqb (r_uid r) uid && negb (negb (N.land (r_flags r) syncOnceFlag =? 0)) && (r_seq r <=? t)) eqn:Ec; [|destruct Hq].
+          destruct Hq as [<-|[]]. rewrite negb_involutive in Ec. beq. split; [|assumption].
+          assert (Hh : has (st_kv F st) (KySseq c uid (r_seq r))).
+          { apply (rc_sseq _ _ _ _ Rc). exists r. repeat split; try assumption. }
+          unfold has in Hh. destruct (kget _ _) as [v|]; [exists v; reflexivity|contradiction]. }
+      fold l1. cbn [spec_check_read]. fold l2.
+      destruct l1 as [|x1 l1'] eqn:E1; destruct l2 as [|x2 l2'] eqn:E2; cbn [out_of ok option_eqb].
+      + reflexivity.
+      + exfalso. apply (proj2 (Hmem x2)). left. reflexivity.
+      + exfalso. apply (proj1 (Hmem x1)). left. reflexivity.
+      + rewrite (fold_Nmax_ext _ _ Hmem). apply N.eqb_refl.
+  Qed.
+
+  (* ---- the small ones -------------------------------------------------------------------------------------- *)
+
+  Lemma check_lck st s c : R st s -> spec_check_read s (OLoadCk c) (XTriple (loadCheckpoint (st_kv F st) c)) = true.
+  Proof.
+    intros [Hk _]. destruct (rk_chan _ _ Hk c) as [rows Rc]. cbn [spec_check_read].
+    rewrite (rc_ck _ _ _ _ Rc). apply option_eqb_refl. apply triple_eqb_refl.
+  Qed.
+
+  Lemma check_hist st s c : R st s -> spec_check_read s (OHist c) (XPairs (loadHistory (st_kv F st) c)) = true.
+  Proof.
+    intros [Hk _]. destruct (rk_chan _ _ Hk c) as [rows Rc]. cbn [spec_check_read].
+    rewrite (rc_hist _ _ _ _ Rc). apply list_eqb_refl. apply npair_eqb_refl.
+  Qed.
+
+  (* ---- ListByClientMsgNo ------------------------------------------------------------------------------------ *)
+
+  Lemma NoDup_app_intro {A} (l1 l2 : list A) :
+    NoDup l1 -> NoDup l2 -> (forall x, In x l1 -> In x l2 -> False) -> NoDup (l1 ++ l2).
+  Proof.
+    induction 1 as [|x l1 Hx Hl IH]; intros H2 Hd; cbn [app]; [exact H2|].
+    constructor.
+    - intro Hin. apply in_app_or in Hin. destruct Hin as [Hin|Hin]; [contradiction|].
+      apply (Hd x); [left; reflexivity|exact Hin].
+    - apply IH; [exact H2|]. intros y Hy1 Hy2. apply (Hd y); [right; exact Hy1|exact Hy2].
+  Qed.
+
+  Lemma NoDup_flat_map_inj {A B} (g : A -> list B) l :
+    NoDup l -> (forall x, In x l -> NoDup (g x)) ->
+    (forall x y b, In x l -> In y l -> In b (g x) -> In b (g y) -> x = y) ->
+    NoDup (flat_map g l).
+  Proof.
+    induction 1 as [|x l Hx Hl IH]; intros Hg Hinj; cbn [flat_map]; [constructor|].
+    apply NoDup_app_intro.
+    - apply Hg. left. reflexivity.
+    - apply IH; [intros y Hy; apply Hg; right; exact Hy|].
+      intros y z b Hy Hz. apply Hinj; right; assumption.
+    - intros b Hb1 Hb2. apply in_flat_map in Hb2. destruct Hb2 as [y [Hy Hb2]].
+      assert (x = y) by (apply (Hinj x y b); [left; reflexivity|right; exact Hy|exact Hb1|exact Hb2]).
+      subst. contradiction.
+  Qed.
+
+  Lemma swf_nodup (kv : kvs) : swf kv -> NoDup kv.
+  Proof. intro W. eapply NoDup_map_inv. exact W. Qed.
+
+  Lemma list_rows_ok kv s c rows cno : Rchan kv s c rows ->
+    forall l rs, Forall2 (fun (e : N * bool) r => In r rows /\ r_seq r = fst e /\ r_cno r = cno) l rs ->
+    list_rows kv c cno l = ok rs.
+  Proof.
+    intro Rc. induction 1 as [|[q b] r l rs [Hin [Hs Hn]] Hrest IH]; cbn [list_rows]; [reflexivity|].
+    cbn [fst] in Hs.
+    assert (Hq : q <> 0) by (rewrite <- Hs; eapply row_seq_pos; eassumption).
+    destruct (getRowBySeq_spec _ _ _ _ q Rc Hq) as [[r2 [Hin2 [Hs2 E]]]|[Hno E]].
+    2:{ exfalso. apply (Hno r Hin). exact Hs. }
+    assert (r2 = r) by (apply (sorted_lt_inj rows); [apply Rc|assumption|assumption|lia]). subst r2.
+    rewrite E. cbn [bind ok]. rewrite Hn, bytes_eqb_refl. cbn [negb]. rewrite IH. reflexivity.
+  Qed.
+
+  (* every index entry the lookup collects points at a stored row with that client msg no *)
+  Definition bycno_entries (kv : kvs) c cno before : list (N * bool) :=
+    let want q := (before =? 0) || (q <? before) in
+    flat_map (fun e : bytes * bytes * (N * N * N) => let '(n, _, (q, _, _)) := e in
+                       if bytes_eqb n cno && want q then [(q, true)] else []) (idem_entries kv c)
+    ++ flat_map (fun q => if want q then [(q, false)] else []) (cidx_seqs kv c cno).
+
+  Lemma bycno_entry_sound kv s c rows cno before q b :
+    swf kv -> Rchan kv s c rows -> In (q, b) (bycno_entries kv c cno before) ->
+    exists r, In r rows /\ r_seq r = q /\ r_cno r = cno
+              /\ ((before =? 0) || (q <? before)) = true /\ b = negb (is_nil (r_uid r)).
+  Proof.
+    intros W Rc Hin. unfold bycno_entries in Hin. apply in_app_or in Hin. destruct Hin as [Hin|Hin].
+    - apply in_flat_map in Hin. destruct Hin as [[[n u] [[q0 i] h]] [He Hq]].
+      destruct (bytes_eqb n cno && ((before =? 0) || (q0 <? before))) eqn:Ec; [|destruct Hq].
+      destruct Hq as [Hq|[]]. injection Hq as <- <-. apply andb_true_iff in Ec. destruct Ec as [En Ew].
+      apply bytes_eqb_eq in En. subst n.
+      apply (in_idem_entries _ _ _ _ _ _ _ W) in He.
+      destruct (rc_idem_sound _ _ _ _ Rc _ _ _ _ _ He) as [r [Hr [Hs [Hn [Hu [_ [_ [_ Hune]]]]]]]].
+      exists r. repeat split; try assumption. rewrite Hu. apply is_nil_false in Hune. rewrite Hune. reflexivity.
+    - apply in_flat_map in Hin. destruct Hin as [q0 [He Hq]].
+      destruct ((before =? 0) || (q0 <? before)) eqn:Ew; [|destruct Hq].
+      destruct Hq as [Hq|[]]. injection Hq as <- <-.
+      apply (in_cidx_seqs _ _ _ _ W) in He. destruct He as [v Hv].
+      assert (Hh : has kv (KyCidx c cno q0)) by (unfold has; rewrite Hv; discriminate).
+      apply (rc_cidx _ _ _ _ Rc) in Hh. destruct Hh as [r [Hr [Hs [Hn [_ Hu]]]]].
+      exists r. repeat split; try assumption. rewrite Hu. reflexivity.
+  Qed.
+
+  Lemma Forall2_sound kv s c rows cno before l :
+    swf kv -> Rchan kv s c rows -> (forall e, In e l -> In e (bycno_entries kv c cno before)) ->
+    exists rs, Forall2 (fun (e : N * bool) r => In r rows /\ r_seq r = fst e /\ r_cno r = cno) l rs
+               /\ map r_seq rs = map fst l.
+  Proof.
+    intros W Rc. induction l as [|[q b] l IH]; intro H.
+    - exists []. split; [constructor|reflexivity].
+    - destruct (bycno_entry_sound _ _ _ _ _ _ q b W Rc (H _ (or_introl eq_refl))) as [r [Hr [Hs [Hn _]]]].
+      destruct IH as [rs [H2 Hm]]; [intros e He; apply H; right; exact He|].
+      exists (r :: rs). split; [constructor; [repeat split; assumption|exact H2]|].
+      cbn [map fst]. rewrite Hs, Hm. reflexivity.
+  Qed.
+
+  (* a list of rows of the log is determined by its sequences *)
+  Lemma rows_by_seq rows l1 l2 : sorted_lt r_seq rows ->
+    (forall r, In r l1 -> In r rows) -> (forall r, In r l2 -> In r rows) ->
+    map r_seq l1 = map r_seq l2 -> l1 = l2.
+  Proof.
+    intro Hs. revert l2. induction l1 as [|x l1 IH]; intros [|y l2] H1 H2 E; try discriminate; [reflexivity|].
+    cbn [map] in E. injection E as E1 E2. f_equal.
+    - apply (sorted_lt_inj rows); [exact Hs|apply H1; left; reflexivity|apply H2; left; reflexivity|exact E1].
+    - apply IH; [intros r Hr; apply H1; right; exact Hr|intros r Hr; apply H2; right; exact Hr|exact E2].
+  Qed.
+
+  Lemma sorted_lt_filter {A} (f : A -> N) p l : sorted_lt f l -> sorted_lt f (filter p l).
+  Proof.
+    unfold sorted_lt. induction 1 as [|x l Hs IH Hall]; cbn [filter]; [constructor|].
+    destruct (p x); [|exact IH]. constructor; [exact IH|].
+    apply Forall_forall. intros y Hy. apply filter_In in Hy. eapply Forall_forall in Hall; [exact Hall|apply Hy].
+  Qed.
+
+  Lemma sorted_lt_map {A B} (f : B -> N) (g : A -> B) l : sorted_lt (fun a => f (g a)) l -> sorted_lt f (map g l).
+  Proof.
+    unfold sorted_lt. induction 1 as [|x l Hs IH Hall]; cbn [map]; [constructor|].
+    constructor; [exact IH|]. apply Forall_forall. intros y Hy. apply in_map_iff in Hy.
+    destruct Hy as [z [<- Hz]]. eapply Forall_forall in Hall; [exact Hall|exact Hz].
+  Qed.
+
+  Lemma nodup_idem_entries kv c : swf kv -> NoDup (idem_entries kv c).
+  Proof.
+    intro W. unfold idem_entries. apply NoDup_flat_map_inj.
+    - apply swf_nodup. exact W.
+    - intros [k v] _. destruct k; try constructor. destruct v; try constructor.
+      destruct (c0 =? c); [|constructor]. constructor; [intros []|constructor].
+    - intros [k1 v1] [k2 v2] b H1 H2 Hb1 Hb2.
+      destruct k1; try contradiction. destruct v1; try contradiction.
+      destruct (c0 =? c) eqn:E1; [|contradiction]. destruct Hb1 as [<-|[]].
+      destruct k2; try contradiction. destruct v2; try contradiction.
+      destruct (c1 =? c) eqn:E2; [|contradiction]. destruct Hb2 as [Hb2|[]].
+      injection Hb2 as -> -> -> -> ->. apply N.eqb_eq in E1, E2. subst. reflexivity.
+  Qed.
+
+  Lemma nodup_cidx_seqs kv c cno : swf kv -> NoDup (cidx_seqs kv c cno).
+  Proof.
+    intro W. unfold cidx_seqs. apply NoDup_flat_map_inj.
+    - apply swf_nodup. exact W.
+    - intros [k v] _. destruct k; try constructor.
+      destruct ((c0 =? c) && bytes_eqb cno0 cno); [|constructor]. constructor; [intros []|constructor].
+    - intros [k1 v1] [k2 v2] b H1 H2 Hb1 Hb2.
+      destruct k1; try contradiction.
+      destruct ((c0 =? c) && bytes_eqb cno0 cno) eqn:E1; [|contradiction]. destruct Hb1 as [<-|[]].
+      destruct k2; try contradiction.
+      destruct ((c1 =? c) && bytes_eqb cno1 cno) eqn:E2; [|contradiction]. destruct Hb2 as [Hb2|[]].
+      subst. beq. subst.
+      (* same key: the store has one binding per key *)
+      assert (G1 := proj1 (kin_iff_get _ _ _ W) H1). assert (G2 := proj1 (kin_iff_get _ _ _ W) H2).
+      rewrite G1 in G2. injection G2 as ->. reflexivity.
+  Qed.
+
+  Lemma nodup_bycno_entries kv s c rows cno before :
+    swf kv -> Rchan kv s c rows -> NoDup (bycno_entries kv c cno before).
+  Proof.
+    intros W Rc. unfold bycno_entries. apply NoDup_app_intro.
+    - apply NoDup_flat_map_inj.
+      + apply nodup_idem_entries. exact W.
+      + intros [[n u] [[q i] h]] _. destruct (_ && _); constructor; [intros []|constructor].
+      + intros [[n1 u1] [[q1 i1] h1]] [[n2 u2] [[q2 i2] h2]] b H1 H2 Hb1 Hb2.
+        destruct (bytes_eqb n1 cno && ((before =? 0) || (q1 <? before))) eqn:E1; [|destruct Hb1].
+        destruct (bytes_eqb n2 cno && ((before =? 0) || (q2 <? before))) eqn:E2; [|destruct Hb2].
+        destruct Hb1 as [<-|[]]. destruct Hb2 as [Hb2|[]]. injection Hb2 as ->.
+        apply andb_true_iff in E1, E2. destruct E1 as [E1 _], E2 as [E2 _].
+        apply bytes_eqb_eq in E1, E2. subst n1 n2.
+        apply (in_idem_entries _ _ _ _ _ _ _ W) in H1, H2.
+        destruct (rc_idem_sound _ _ _ _ Rc _ _ _ _ _ H1) as [r1 [Hr1 [Hs1 [_ [Hu1 _]]]]].
+        destruct (rc_idem_sound _ _ _ _ Rc _ _ _ _ _ H2) as [r2 [Hr2 [Hs2 [_ [Hu2 _]]]]].
+        assert (r1 = r2) by (apply (sorted_lt_inj rows); [apply Rc|assumption|assumption|lia]). subst r2.
+        rewrite <- Hu2 in H2 |- *. rewrite <- Hu1 in H1 |- *. rewrite H1 in H2. injection H2 as -> ->. reflexivity.
+    - apply NoDup_flat_map_inj.
+      + apply nodup_cidx_seqs. exact W.
+      + intros q _. destruct (_ || _); constructor; [intros []|constructor].
+      + intros q1 q2 b _ _ Hb1 Hb2.
+        destruct ((before =? 0) || (q1 <? before)); [|destruct Hb1].
+        destruct ((before =? 0) || (q2 <? before)); [|destruct Hb2].
+        destruct Hb1 as [<-|[]]. destruct Hb2 as [Hb2|[]]. injection Hb2 as ->. reflexivity.
+    - intros [q b] H1 H2.
+      apply in_flat_map in H1. destruct H1 as [[[n u] [[q1 i] h]] [_ Hb1]].
+      destruct (_ && _); [|destruct Hb1]. destruct Hb1 as [Hb1|[]]. injection Hb1 as <- <-.
+      apply in_flat_map in H2. destruct H2 as [q2 [_ Hb2]].
+      destruct (_ || _); [|destruct Hb2]. destruct Hb2 as [Hb2|[]]. discriminate.
+  Qed.
+
+  Lemma NoDup_map_inj_in {A B} (f : A -> B) l :
+    NoDup l -> (forall x y, In x l -> In y l -> f x = f y -> x = y) -> NoDup (map f l).
+  Proof.
+    induction 1 as [|x l Hx Hl IH]; intro Hinj; cbn [map]; [constructor|].
+    constructor.
+    - intro Hin. apply in_map_iff in Hin. destruct Hin as [y [E Hy]].
+      assert (y = x) by (apply Hinj; [right; exact Hy|left; reflexivity|exact E]). subst. contradiction.
+    - apply IH. intros y z Hy Hz. apply Hinj; right; assumption.
+  Qed.
+
+  Lemma cno_untainted_pair l u cno : cno_tainted l cno = false -> pair_tainted l u cno = false.
+  Proof.
+    unfold cno_tainted, pair_tainted. intro H.
+    destruct (existsb (fun p => bytes_eqb (fst p) u && bytes_eqb (snd p) cno) (al_tpairs l)) eqn:E; [|reflexivity].
+    apply existsb_exists in E. destruct E as [p [Hp Hb]]. apply andb_true_iff in Hb.
+    assert (X : existsb (fun p => bytes_eqb (snd p) cno) (al_tpairs l) = true)
+      by (apply existsb_exists; exists p; split; [exact Hp|apply Hb]).
+    rewrite H in X. discriminate.
+  Qed.
+
+  Lemma map_rev_last (rows : list row) :
+    match rev (map messageFromRow rows) with m :: _ => m_seq m | [] => 0 end = last_seq rows.
+  Proof.
+    unfold last_seq. rewrite <- map_rev. destruct (rev rows); reflexivity.
+  Qed.
+
+  Lemma check_bycno st s c cno before lim : R st s ->
+    spec_check_read s (OByCno c cno before lim)
+      (out_of (ListByClientMsgNo F st c cno before lim)
+              (fun x => let '(rs, more, nb) := x in XPage (map messageFromRow rs) more nb)) = true.
+  Proof.
+    intros [Hk _]. destruct (rk_chan _ _ Hk c) as [rows Rc]. pose proof (rk_wf _ _ Hk) as W.
+    unfold ListByClientMsgNo.
+    destruct (is_nil cno || (lim <=? 0)%Z) eqn:En.
+    { cbn [out_of err spec_check_read]. rewrite En, N.eqb_refl. reflexivity. }
+    apply orb_false_iff in En. destruct En as [Ecn Elim]. apply is_nil_false in Ecn.
+    change (flat_map _ (idem_entries (st_kv F st) c) ++ flat_map _ (cidx_seqs (st_kv F st) c cno))
+      with (bycno_entries (st_kv F st) c cno before).
+    set (E := bycno_entries (st_kv F st) c cno before).
+    assert (Hsub : forall e, In e (sort_desc E) -> In e E).
+    { intros e He. unfold sort_desc in He. rewrite <- in_rev in He. exact (proj1 (in_sort_by _ _ _) He). }
+    destruct (Forall2_sound _ _ _ _ cno before (sort_desc E) W Rc Hsub) as [rs [HF Hseq]].
+    rewrite (list_rows_ok _ _ _ _ cno Rc _ _ HF). cbn [bind ok].
+    assert (Hrs : forall r, In r rs -> In r rows /\ r_cno r = cno).
+    { clear - HF. induction HF as [|e r l rs' [H1 [_ H3]] _ IH]; [intros r0 []|intros r0 [<-|Hr0]; [split; assumption|apply IH; exact Hr0]]. }
+    set (p := fun q => (before =? 0) || (q <? before)).
+    set (pr := fun r : row => bytes_eqb (r_cno r) cno && p (r_seq r)).
+    destruct (cno_tainted (as_log s c) cno) eqn:T.
+    - (* a tainted client msg no: soundness only *)
+      assert (Hall : forall l, (forall r, In r l -> In r rs) ->
+                     forallb (fun m => in_msgs m (as_log s c) && bytes_eqb (m_cno m) cno) (map messageFromRow l) = true).
+      { intros l Hl. apply forallb_forall. intros m Hm. apply in_map_iff in Hm. destruct Hm as [r [<- Hr]].
+        destruct (Hrs r (Hl r Hr)) as [Hin Hc]. rewrite (in_msgs_row _ _ _ _ _ Rc Hin).
+        cbn [m_cno messageFromRow]. rewrite Hc, bytes_eqb_refl. reflexivity. }
+      destruct (lim <? Z.of_nat (length rs))%Z; cbn [out_of ok spec_check_read]; rewrite T; apply Hall.
+      + intros r Hr. unfold firstn_rows in Hr. rewrite <- (firstn_skipn (Z.to_nat lim) rs). apply in_or_app. left. exact Hr.
+      + intros r Hr. exact Hr.
+    - (* untainted: exactly the rows with that client msg no, newest first *)
+      assert (HT : sort_by (fun x : N * bool => fst x) E
+                   = map (fun r => (r_seq r, negb (is_nil (r_uid r)))) (filter pr rows)).
+      { apply (sorted_lt_unique (fun x : N * bool => fst x)).
+        - apply sorted_le_lt; [|apply sort_by_sorted].
+          eapply Permutation_NoDup; [apply Permutation_map, Permutation_sym, sort_by_perm|].
+          apply NoDup_map_inj_in; [eapply nodup_bycno_entries; eassumption|].
+          intros [q1 b1] [q2 b2] H1 H2 Eq. cbn [fst] in Eq. subst q2.
+          destruct (bycno_entry_sound _ _ _ _ _ _ _ _ W Rc H1) as [r1 [Hr1 [Hs1 [_ [_ Hb1]]]]].
+          destruct (bycno_entry_sound _ _ _ _ _ _ _ _ W Rc H2) as [r2 [Hr2 [Hs2 [_ [_ Hb2]]]]].
+          assert (r1 = r2) by (apply (sorted_lt_inj rows); [apply Rc|assumption|assumption|lia]). subst. reflexivity.
+        - apply (sorted_lt_map (fun x : N * bool => fst x)). cbn [fst]. apply sorted_lt_filter. apply Rc.
+        - intros [q b]. rewrite (in_sort_by (fun x : N * bool => fst x)). rewrite in_map_iff. split.
+          + intro He. destruct (bycno_entry_sound _ _ _ _ _ _ _ _ W Rc He) as [r [Hr [Hs [Hn [Hw Hb]]]]].
+            exists r. split; [rewrite Hs, Hb; reflexivity|]. apply filter_In. split; [exact Hr|].
+            unfold pr, p. rewrite Hn, bytes_eqb_refl, Hs, Hw. reflexivity.
+          + intros [r [Hqb Hr]]. injection Hqb as <- <-. apply filter_In in Hr. destruct Hr as [Hr Hp].
+            unfold pr, p in Hp. apply andb_true_iff in Hp. destruct Hp as [Hn Hw]. apply bytes_eqb_eq in Hn.
+            unfold E, bycno_entries. apply in_or_app.
+            destruct (r_uid r) as [|u0 ur] eqn:Eu.
+            * right. apply in_flat_map. exists (r_seq r). split.
+              -- apply (in_cidx_seqs _ _ _ _ W).
+                 assert (Hh : has (st_kv F st) (KyCidx c cno (r_seq r))).
+                 { apply (rc_cidx _ _ _ _ Rc). exists r. repeat split; assumption. }
+                 unfold has in Hh. destruct (kget _ _) as [v|]; [exists v; reflexivity|contradiction].
+              -- rewrite Hw. left. reflexivity.
+            * left. apply in_flat_map.
+              exists (cno, r_uid r, (r_seq r, r_id r, r_hash r)). split.
+              -- apply (in_idem_entries _ _ _ _ _ _ _ W). rewrite <- Hn.
+                 apply (rc_idem_complete _ _ _ _ Rc r Hr).
+                 ++ rewrite Eu. discriminate.
+                 ++ rewrite Hn. exact Ecn.
+                 ++ rewrite Hn. apply cno_untainted_pair. exact T.
+              -- cbn beta iota. rewrite bytes_eqb_refl. unfold p in Hw. rewrite Hw. left. reflexivity. }
+      assert (Hrs_eq : rs = rev (filter pr rows)).
+      { apply (rows_by_seq rows); [apply Rc|intros r Hr; apply Hrs; exact Hr| |].
+        - intros r Hr. apply in_rev in Hr. apply filter_In in Hr. apply Hr.
+        - rewrite Hseq. unfold sort_desc. rewrite HT. rewrite <- !map_rev, map_map. reflexivity. }
+      assert (Hwant : rev (filter (fun m => bytes_eqb (m_cno m) cno && ((before =? 0) || (m_seq m <? before))) (amsgs (as_log s c)))
+                      = map messageFromRow rs).
+      { rewrite (Rchan_amsgs _ _ _ _ Rc), Hrs_eq, map_rev. f_equal.
+        clear. induction rows as [|r rows IH]; cbn [map filter]; [reflexivity|].
+        cbn [m_cno m_seq messageFromRow]. unfold pr, p. destruct (_ && _); cbn [map]; rewrite IH; reflexivity. }
+      cbn [spec_check_read].
+      destruct (lim <? Z.of_nat (length rs))%Z eqn:El; cbn [out_of ok spec_check_read]; rewrite T, Hwant, map_length, El.
+      + unfold firstn_rows. rewrite firstn_map, msgs_eqb_refl, map_rev_last, N.eqb_refl. reflexivity.
+      + rewrite msgs_eqb_refl, N.eqb_refl. reflexivity.
+  Qed.
 End Reads.
